@@ -51,6 +51,7 @@ class Session:
         self.prims_referenced: set = set()
         self.prim_usage: dict = {}
         self._created: list = []
+        self.unravel_applied: list = []
 
     def interp(self) -> Interp:
         self.interps += 1
@@ -76,6 +77,7 @@ class Session:
         self.prims_referenced |= it.prim_referenced
         for k, shapes in it.prim_usage.items():
             self.prim_usage.setdefault(k, set()).update(shapes)
+        self.unravel_applied.extend(it.unravel_applied)
 
     def stats(self):
         return {
